@@ -30,6 +30,85 @@ def flag_choices(rng, kind):
     return f
 
 
+def gen_chain_tree(rng, RG):
+    """Level-merging stress (seeded change C01c): K columns below Machine, each a chain of single-child levels
+    of the same type sequence (a column may skip a level) ending in one or two PUs; memory children are attached
+    asymmetrically (first column without, later ones with, or any subset), sometimes to the PUs' parents only.
+    Returns the XML text."""
+    types = [t for t in RG.NORMAL_ORDER if rng.random() < 0.45] or [rng.choice(RG.NORMAL_ORDER)]
+    k = rng.choice([2, 3, 3, 4, 6])
+    root = RG.Node("Machine", 0)
+    npu = [0]
+    numa = [0]
+    cnt = {}
+    pattern = rng.choice(["first-without", "last-without", "random", "none", "all", "pu-parents"])
+    for col in range(k):
+        cur = root
+        chain = []
+        for t in types:
+            if len(types) > 1 and rng.random() < 0.12:
+                continue                     # this column skips the level
+            cnt[t] = cnt.get(t, 0) + 1
+            c = RG.Node(t, cnt[t] - 1)
+            cur.n.append(c)
+            cur = c
+            chain.append(c)
+        for _ in range(1 if rng.random() < 0.8 else 2):
+            cur.n.append(RG.Node("PU", npu[0]))
+            npu[0] += 1
+        if not chain:
+            continue
+        want = {"first-without": col > 0, "last-without": col < k - 1, "random": rng.random() < 0.5,
+                "none": False, "all": True, "pu-parents": rng.random() < 0.6}[pattern]
+        if want:
+            host = chain[-1] if pattern == "pu-parents" or rng.random() < 0.6 else rng.choice(chain)
+            nn = RG.Node("NUMANode", numa[0])
+            numa[0] += 1
+            nn.attrs["local_memory"] = str(1 << 20)
+            if rng.random() < 0.15:
+                mc = RG.Node("MemCache")
+                mc.attrs.update({"cache_size": "1048576", "depth": "1", "cache_linesize": "64", "cache_associativity": "1", "cache_type": "0"})
+                mc.m.append(nn)
+                host.m.append(mc)
+            else:
+                host.m.append(nn)
+    if numa[0] == 0 or rng.random() < 0.3:
+        nn = RG.Node("NUMANode", numa[0])
+        nn.attrs["local_memory"] = str(1 << 20)
+        root.m.append(nn)
+
+    def fill_cs(o):
+        if o.ty == "PU":
+            o.cs = 1 << o.os
+        else:
+            o.cs = 0
+            for c in o.n:
+                o.cs |= fill_cs(c)
+        return o.cs
+    fill_cs(root)
+
+    def below_nodes(mo):
+        return (1 << mo.os) if mo.ty == "NUMANode" else sum(below_nodes(c) for c in mo.m)
+
+    def fill_nds(o, inherited):
+        local = sum(below_nodes(c) for c in o.m)
+        below = local
+        for c in o.n:
+            below |= fill_nds(c, inherited | local)
+        o.nds = inherited | below
+
+        def fill_mem(mo):
+            mo.cs = o.cs
+            mo.nds = below_nodes(mo)
+            for cc in mo.m:
+                fill_mem(cc)
+        for c in o.m:
+            fill_mem(c)
+        return below
+    fill_nds(root, 0)
+    return RG.tree_to_xml(root, dont_merge_groups=rng.random() < 0.1), types
+
+
 def make_cases(run, scratch):
     rng = run.rng
     quick = run.tier == "quick"
@@ -73,6 +152,21 @@ def make_cases(run, scratch):
                 f.write(xml)
             cfg = (S.filter_lines(rng) if rng.random() < 0.7 else []) + ["flags %d" % flag_choices(rng, "xml")]
             cases.append(("genxml:%d|%s" % (i, ";".join(cfg)), ["env HWLOC_LIBXML_IMPORT %d" % (i % 2)] + cfg + ["src xml " + path], "genxml"))
+        tynum = {"Group": 13, "Package": 1, "Die": 2, "L3Cache": 7, "L2Cache": 6, "L1Cache": 5, "Core": 3}
+        for i in range(150 if quick else 4000):
+            xml, types = gen_chain_tree(rng, RG)
+            path = os.path.join(scratch.dir, "chain%d.xml" % i)
+            with open(path, "w") as f:
+                f.write(xml)
+            r = rng.random()
+            if r < 0.3:
+                cfg = []
+            elif r < 0.75:      # the chain types under KEEP_STRUCTURE (what the level-merging pass looks at) or KEEP_ALL
+                cfg = ["filter %d %d" % (tynum[t], rng.choice([2, 2, 0])) for t in types]
+            else:
+                cfg = S.filter_lines(rng)
+            cfg += ["flags %d" % flag_choices(rng, "xml")]
+            cases.append(("chainxml:%d|%s" % (i, ";".join(cfg)), ["env HWLOC_LIBXML_IMPORT %d" % (i % 2)] + cfg + ["src xml " + path], "genxml"))
     except Exception as e:
         run.cov["genxml_generator_unavailable"] = repr(e)
     xmls = S.xml_corpus()
